@@ -29,6 +29,7 @@ import os
 import re
 
 from .. import core, tools
+from ..refs import defx
 
 PROPERTY = 'C04'
 NEEDS_C = False
@@ -109,7 +110,20 @@ ALPHABET = [
     'LD A,{L}%256',                 # 8-bit LD of an address LSB
     'LD (HL),{F}/256',
     'NEG',
+    # expressions whose hexadecimal numbers have digits A-F (data statements evaluate their operands as written,
+    # instructions after tidying; see also STYLES)
+    'DEFB $1B+1,"a"+$0F',
+    'DEFM "Hi",$0D+$80',
+    'DEFS $0A-8,$F0/$10',           # the length is an expression too
+    'DEFW {Fx}+$0A,$C0DE-1',
+    'LD A,$0A+1',
 ]
+ALPHABET3 = ALPHABET[:36]           # the letters used for three-instruction files (thorough tier)
+
+# Source styles: None = operations in upper case, addresses in decimal (as written above); 'lh' = the file as
+# `sna2skool.py -H -l` writes it: operations in lower case (strings untouched), instruction addresses and address
+# operands in lower case hexadecimal
+STYLES = (None, 'lh')
 
 # Hosts for the directive parts: three instructions that all refer to one another.
 HOST_I0 = 'LD HL,{A2}'
@@ -164,7 +178,10 @@ def assembler():
 
 
 def op_size(text, address):
-    n = len(assembler().assemble(text, address))
+    if defx.directive_of(text):
+        n = len(defx.assemble(text))    # data statements: sized by the reference, in either case
+    else:
+        n = len(assembler().assemble(text, address))
     if not n:
         raise ValueError('harness letter does not assemble: {!r}'.format(text))
     return n
@@ -172,8 +189,9 @@ def op_size(text, address):
 
 class Layout:
     """The generated file before any directive is applied: instructions at contiguous addresses."""
-    def __init__(self, base, entries, gap_entry=None):
+    def __init__(self, base, entries, gap_entry=None, style=None):
         self.base = base
+        self.style = style
         self.ins = []
         for e, letters in enumerate(entries):
             for j, t in enumerate(letters):
@@ -182,7 +200,7 @@ class Layout:
         self.gap_entry = gap_entry
         env = self._env(None)
         for i in self.ins:
-            i.size = op_size(i.tmpl.format(S=base, N=base, S1=base, **env), base)
+            i.size = op_size(self._fmt(i.tmpl, base, base, base, env), base)
         a = base
         for i in self.ins:
             if i.first and i.entry == gap_entry and i.entry > 0:
@@ -192,17 +210,32 @@ class Layout:
         self.end = a
         env = self._env(self.ins)
         for i in self.ins:
-            i.text = i.tmpl.format(S=i.saddr, N=i.saddr + i.size, S1=i.saddr + 1, **env)
+            i.text = self._fmt(i.tmpl, i.saddr, i.saddr + i.size, i.saddr + 1, env)
+
+    def _num(self, v):
+        return '${:04x}'.format(v) if self.style == 'lh' else v
+
+    def _fmt(self, tmpl, s, n, s1, env):
+        text = tmpl.format(S=self._num(s), N=self._num(n), S1=self._num(s1), **env)
+        return lower_outside_strings(text) if self.style == 'lh' else text
 
     def _env(self, ins):
         def addr(k):
-            return self.base if ins is None else ins[min(k, len(ins) - 1)].saddr
+            return self._num(self.base if ins is None else ins[min(k, len(ins) - 1)].saddr)
         n = len(self.ins)
-        return dict(F=addr(0), L=addr(n - 1), Fx='${:04X}'.format(addr(0)), A0=addr(0), A1=addr(1), A2=addr(2))
+        fx = self.base if ins is None else ins[0].saddr
+        return dict(F=addr(0), L=addr(n - 1), Fx='${:04X}'.format(fx), A0=addr(0), A1=addr(1), A2=addr(2))
 
     def resolve(self, tmpl, at=None):
         at = self.base if at is None else at
-        return tmpl.format(S=at, N=at, S1=at + 1, **self._env(self.ins))
+        return self._fmt(tmpl, at, at, at + 1, self._env(self.ins))
+
+
+def lower_outside_strings(text):
+    parts = _QUOTED.split(text)
+    for k in range(0, len(parts), 2):
+        parts[k] = parts[k].lower()
+    return ''.join(parts)
 
 
 def sized_op(n):
@@ -581,7 +614,7 @@ def skool_text(lay, d, p, labels_all, with_directive=True, shift=False):
             out.append('; Entry {}'.format(i.entry))
             if i.entry == 0 and not (with_directive and d is not None and d.drop_org and p == 0):
                 out.append('@org={}'.format(lay.base + GAP) if shift else '@org')
-        line = '{}{:05d} {:<13} ; comment {}'.format('c' if i.first else ' ', i.saddr, i.text, i.idx)
+        line = ('{}${:04x} {:<13} ; comment {}' if lay.style == 'lh' else '{}{:05d} {:<13} ; comment {}').format('c' if i.first else ' ', i.saddr, i.text, i.idx)
         cont = '                     ; and a second line' if i.idx == 1 else None
         here = with_directive and d is not None and i.idx == p
         if here:
@@ -642,7 +675,17 @@ def read_asm(text):
     items = []
     labels = {}
     errors = []
-    counts = {'org': 0, 'equ': 0, 'label': 0}
+    counts = {'org': 0, 'equ': 0, 'label': 0, 'defx': 0}
+
+    def assemble(op, addr):
+        # data statements: by the reference evaluator (whatever their case); instructions: by the repository Assembler
+        if defx.directive_of(op):
+            try:
+                return defx.assemble(op)
+            except ValueError as e:
+                errors.append('cannot evaluate {!r}: {}'.format(op, e))
+                return ()
+        return asm.assemble(op, addr) or ()
     for raw in text.split('\n'):
         line = raw.rstrip('\r')
         if not line.strip() or line.startswith(';'):
@@ -696,10 +739,12 @@ def read_asm(text):
         elif it[0] == 'label':
             labels[it[1]] = addr
         else:
-            size = len(asm.assemble(subst_labels(it[1], labels, addr), addr))
+            size = len(assemble(subst_labels(it[1], labels, addr), addr))
             if not size:
                 errors.append('cannot assemble {!r}'.format(it[1]))
                 continue
+            if defx.directive_of(it[1]):
+                counts['defx'] += 1
             placed.append((addr, size, it[1]))
             addr += size
     # pass 2: bytes
@@ -709,7 +754,7 @@ def read_asm(text):
         resolved = subst_labels(op, labels)
         if resolved != op:
             used += 1
-        data = asm.assemble(resolved, addr)
+        data = assemble(resolved, addr)
         if len(data) != size:
             errors.append('cannot assemble {!r} (= {!r}) at {}'.format(op, resolved, addr))
             continue
@@ -755,10 +800,11 @@ def read_peeks(text):
 # --------------------------------------------------------------------------- one case
 class Case:
     """(file, directive, anchor, label option) - everything that does not depend on mode/options."""
-    def __init__(self, base, entries, dname=None, kind=None, p=0, labels_all=False, gap_entry=None, shift=False):
+    def __init__(self, base, entries, dname=None, kind=None, p=0, labels_all=False, gap_entry=None, shift=False, style=None):
         self.base, self.entries, self.dname, self.kind, self.p, self.labels_all, self.gap_entry = base, entries, dname, kind, p, labels_all, gap_entry
         self.shift = shift      # the whole file is assembled GAP bytes above its skool addresses (@org=base+GAP)
-        self.lay = Layout(base, entries, gap_entry)
+        self.style = style      # source style (STYLES)
+        self.lay = Layout(base, entries, gap_entry, style)
         if p >= len(self.lay.ins):
             raise NotApplicable
         self.d = None
@@ -770,10 +816,10 @@ class Case:
 
     def ident(self):
         return '{}/{}/{}{}@{}{}'.format(self.base, '|'.join(';'.join(e) for e in self.entries), (self.kind + ':') if self.kind else '', self.dname or 'none',
-                                        self.p, ('/labels' if self.labels_all else '') + ('/shift' if self.shift else ''))
+                                        self.p, ('/labels' if self.labels_all else '') + ('/shift' if self.shift else '') + ('/' + self.style if self.style else ''))
 
     def spec(self):
-        return dict(base=self.base, entries=self.entries, directive=self.dname, kind=self.kind, anchor=self.p, labels_all=self.labels_all, gap_entry=self.gap_entry, shift=self.shift)
+        return dict(base=self.base, entries=self.entries, directive=self.dname, kind=self.kind, anchor=self.p, labels_all=self.labels_all, gap_entry=self.gap_entry, shift=self.shift, style=self.style)
 
     def classify(self, mode, create_labels):
         """Domain of the case in `mode`: returns dict(relocated, in_domain, peek_from, skip_asm, active)."""
@@ -1038,7 +1084,7 @@ def groups(tier, seed):
     # ---- part A: operand alphabet x options, no directive
     n_max = 3 if tier == 'thorough' else 2
     for n in range(1, n_max + 1):
-        for seq in itertools.product(ALPHABET, repeat=n):
+        for seq in itertools.product(ALPHABET if n < 3 else ALPHABET3, repeat=n):
             for sp in _splits(n):
                 if n < 3:
                     o = opts_all
@@ -1049,6 +1095,11 @@ def groups(tier, seed):
                 else:
                     continue
                 yield ('A', dict(base=base, entries=_entries(seq, sp)), [(1, 0)], o, False)
+    # ---- part L: the same files in the lower case hexadecimal source style
+    for n in (1, 2):
+        for seq in itertools.product(ALPHABET, repeat=n):
+            for sp in _splits(n):
+                yield ('L', dict(base=base, entries=_entries(seq, sp), style='lh'), [(1, 0)], opts_all if n == 1 or tier == 'thorough' else option_deviations(1), False)
     # ---- part P: directives other than single @*sub/@*fix.  Mode-independent forms: x all 18 options;
     # mode-dependent forms (@if, two kinds on one instruction): x all 9 modes x label options
     for ent in hosts(tier, HOST_X + HOST_X_P, short=tier == 'thorough', splits=None if tier == 'thorough' else [(3,), (1, 2)]):
@@ -1105,8 +1156,9 @@ def groups(tier, seed):
                     yield ('O', dict(base=base, entries=DEFAULT_HOST, dname=form, kind=kind, p=p, labels_all=la), m,
                            [o for o in opts_all if (o['base'] or o['case']) and not (la and o['c'])], False)
     # ---- part H: HTML mode (no substitution mode at all) against plain skool2bin
-    for t in ALPHABET:
-        yield ('H', dict(base=base, entries=[[t]]), [HTML], opt0, True)
+    for style in STYLES:
+        for t in ALPHABET:
+            yield ('H', dict(base=base, entries=[[t]], style=style), [HTML], opt0, True)
     for t1, t2 in itertools.product(ALPHABET[:12] if tier == 'quick' else ALPHABET, repeat=2):
         if tier == 'thorough' or t1 != t2:
             yield ('H', dict(base=base, entries=[[t1], [t2]]), [HTML], opt0, True)
@@ -1129,7 +1181,7 @@ def _tags(part, case, mode, opts, clause, cls, html, detail='', peek_bad=()):
         hi = ins[case.p + 2].saddr if case.p + 2 < len(ins) else case.lay.end
         where = 'anchor_span' if all(ins[case.p].saddr <= a < hi for a in peek_bad) else 'outside'
     return {'where': where,'error': m.group(1).strip() if clause == 'tool' and m else '','part': part, 'clause': clause, 'form': case.dname or 'none', 'kind': case.kind or '', 'asm': mode[0], 'fix': mode[1],
-            'base': opts.get('base', ''), 'case': opts.get('case', ''), 'c': opts.get('c', 0), 'labels_all': int(case.labels_all),
+            'style': case.style or '', 'base': opts.get('base', ''), 'case': opts.get('case', ''), 'c': opts.get('c', 0), 'labels_all': int(case.labels_all),
             'relocated': int(cls['relocated']), 'active': int(cls['active']), 'anchor': case.p, 'html': int(html)}
 
 
@@ -1161,7 +1213,7 @@ def _shard(shard, nshards, tier, seed):
                     stats.counters['case_a'] += 1
                 if html:
                     stats.counters['html_runs'] += 1
-                if case.dname or opts.get('base') or opts.get('case') or opts.get('c') or '{' in ''.join(t for e in case.entries for t in e):
+                if case.style or case.dname or opts.get('base') or opts.get('case') or opts.get('c') or '{' in ''.join(t for e in case.entries for t in e):
                     stats.nontriv((case.ident(), mode, tuple(sorted(opts.items()))))
                 for clause, detail in res:
                     cid = '{}/{}/m{}{}/{}{}'.format(part, case.ident(), mode[0], mode[1], ''.join(opt_args(opts)) or 'default', '/html' if html else '')
@@ -1179,29 +1231,36 @@ def run(tier, seed):
     rule = (
         'skool files at base address {base} (VERIF_SEED rotates the base over {bases}); every part is a complete product. '
         'A (operands): every sequence of {na} instructions over the {nl}-letter alphabet x every split into entries x mode (1,0) x {{-D,-H,none}} x {{-l,-u,none}} x {{-c,none}}{a3}. '
+        'L (source style): every file of part A of 1-2 instructions written in the lower case hexadecimal style of sna2skool -H -l (operations in lower case outside strings, instruction '
+        'addresses and address operands as $xxxx with lower case digits) x mode (1,0) x {ol}; the alphabet has data statements and an instruction whose operands are expressions over '
+        'hexadecimal numbers with digits A-F. '
         'P (other directives): {np} forms (@org bare/=same/=hex/=shifted/after a gap, @equ x4, @label x4, @keep x2, @nowarn x2, @defb/@defs/@defw x5, @bytes, @if x4, @isub+@ofix on one '
         'instruction) x every anchor x {hp}: mode-independent forms x modes {mp} x all 18 options, mode-dependent forms x all 9 modes x {{no labels, -c, @label on every instruction}}. '
         'B (@*sub/@*fix): {nf} forms (replace same/longer/shorter, LABEL:/comment/final-comment variants, > x2, + x2, replace+append, | x6, ! x2, +begin/-begin..+else/-begin..-end blocks) x '
         '{hb} x every anchor x {{no labels, -c, @label on every instruction}}. S: the same forms, {ks}, in a file assembled 16 bytes above its skool addresses (@org=base+16), all labelled. '
         'O: every form x {ko} x the 8 non-default base/case settings (x -c). H: skool2html #PEEK against plain skool2bin for {hh}. '
+        'Data statements (DEFB/DEFM/DEFS/DEFW) in the ASM text are assembled by the reference evaluator mc/refs/defx.py, instructions by the repository Assembler. '
         'evaluations = (file, mode, options) triples; transitions = tool executions; states = distinct skool2bin images; non-trivial = a directive, an address operand or a non-default option present'
     ).format(
         base=base, bases=list(BASES), na='1-3' if T else '1-2', nl=len(ALPHABET),
-        a3=' (three instructions: one entry x option deviations d<=1, three entries x {-c, -H -c})' if T else '',
+        a3=' (three instructions over the first {} letters: one entry x option deviations d<=1, three entries x {{-c, -H -c}})'.format(len(ALPHABET3)) if T else '',
+        ol='all 18 options' if T else 'all 18 options (one instruction), the 6 option settings at most one step from the default (two instructions)',
         np=len(OTHER_FORMS), hp='7 anchor letters x 2 third instructions x 4 splits + 35 shorter hosts' if T else '7 anchor letters x splits {(3),(1,2)} of a three-instruction host',
         mp='(1,0),(3,3)' if T else '(1,0)', nf=len(SUB_FORMS),
         hb='6 kinds x 9 modes x every host (4 anchor letters x 2 third instructions x 4 splits + 20 shorter hosts)' if T
         else '6 kinds x 9 modes on the default host, and @rsub in modes (2,0),(3,1) on the 11 other three-instruction hosts (4 anchor letters x splits (3),(1,2),(2,1)) and 12 shorter hosts',
         ks='6 kinds x 9 modes' if T else '@bfix in modes (1,1),(1,2)', ko='6 kinds x 9 modes' if T else '@ssub/@bfix in mode (2,2)',
-        hh='every letter, every pair of letters in two entries, every B form x kind x anchor, every P form on 7 hosts' if T
-        else 'every letter, the pairs of the first 12 letters in two entries, every B form x kind x anchor, every P form on 7 hosts')
+        hh='every letter in both source styles, every pair of letters in two entries, every B form x kind x anchor, every P form on 7 hosts' if T
+        else 'every letter in both source styles, the pairs of the first 12 letters in two entries, every B form x kind x anchor, every P form on 7 hosts')
     meta = dict(
         rule=rule,
         exhaustive=True,
         bound=('files of <= 3 instructions in <= 3 entries plus one directive form (one anchor); all 9 (asm,fix) mode pairs of both tools; option product / deviations as stated' if T else
                'files of <= 2 instructions (part A) or 3-instruction hosts in <= 2 entries plus one directive form (one anchor); mode and option products as stated'),
         assumptions=[
-            'the ASM text is assembled by the harness reader through skoolkit.z80.Assembler (tied to the disassembler by C02); instruction sizes are taken to be independent of operand values',
+            'instructions in the ASM text are assembled by the harness reader through skoolkit.z80.Assembler (tied to the disassembler by C02); DEFB/DEFM/DEFS/DEFW statements by the '
+            'independent evaluator mc/refs/defx.py (numbers in the three bases with hexadecimal digits in either case, characters, + - * / % and parentheses; values in range); '
+            'instruction sizes are taken to be independent of operand values',
             'every file has @start and an @org in front of its first entry: skool2asm emits ORG only for @org (asm.rst); without it the ASM text has no address at all',
             '@org is generated only in front of the first instruction of an entry ("the @org directive works only on the first instruction in an entry", asm.rst); '
             'the first instruction of the file is never removed (the ORG would go with it); an entry never starts with an instruction that has no address',
@@ -1215,7 +1274,7 @@ def run(tier, seed):
             'chained @*sub/@*fix directives use the | marker on all directives of a chain or on none, as in the documented examples (a > line may precede)',
             'operands of generated instructions never name a label textually; labels in the ASM text come from -c, @label, LABEL: and @equ only',
         ],
-        required_guards=['part_A', 'part_P', 'part_B', 'part_S', 'part_O', 'part_H', 'case_a', 'case_b_in_domain', 'out_of_domain_unlabelled_relocation', 'asm_org', 'asm_equ',
+        required_guards=['part_A', 'part_L', 'asm_defx', 'part_P', 'part_B', 'part_S', 'part_O', 'part_H', 'case_a', 'case_b_in_domain', 'out_of_domain_unlabelled_relocation', 'asm_org', 'asm_equ',
                          'asm_label', 'asm_label_refs', 'asm_gap', 'html_runs', 'peek_addresses_compared'] + ['in_force_' + k for k in KINDS] + ['form_' + f for f in SUB_FORMS + OTHER_FORMS],
         extra={'out_of_domain_unlabelled_relocation': stats.counters.get('out_of_domain_unlabelled_relocation', 0),
                'form_not_applicable': stats.counters.get('form_not_applicable', 0)},
@@ -1225,6 +1284,6 @@ def run(tier, seed):
 
 def replay(case):
     spec = case['spec']
-    c = Case(spec['base'], spec['entries'], spec.get('directive'), spec.get('kind'), spec.get('anchor', 0), spec.get('labels_all', False), spec.get('gap_entry'), spec.get('shift', False))
+    c = Case(spec['base'], spec['entries'], spec.get('directive'), spec.get('kind'), spec.get('anchor', 0), spec.get('labels_all', False), spec.get('gap_entry'), spec.get('shift', False), spec.get('style'))
     res, _ = Runner().check(c, tuple(case['mode']), case['opts'], case.get('html', False))
     return ['{}: {}'.format(cl, d) for cl, d in res]
